@@ -54,7 +54,7 @@ CORPORA = {
     "adv": dict(model="MC_Adv", quick={}, thorough={}, profiles=DEV_REL, place="both"),
     "round8": dict(model="MC_Round8", quick={}, thorough={}, profiles=DEV_REL, place="end"),
     "custom": dict(model="MC_Custom", quick=dict(MaxSize=96), thorough=dict(MaxSize=96), profiles=DEV_REL, place="both"),
-    "proto": dict(model="MC_Proto", quick=dict(Depth=3), thorough=dict(Depth=5), profiles=DEV_REL, place="end"),
+    "proto": dict(model="MC_Proto", quick=dict(Depth=3), thorough=dict(Depth=4), profiles=DEV_REL, place="end"),
     "big": dict(model="MC_Big", quick=dict(MaxPow=20, HugeLen8s="{134217728, 268435455, 268435456, 268435457, 536870911}"), thorough=dict(MaxPow=21, HugeLen8s="{134217728, 201326592, 268435455, 268435456, 268435457, 402653184, 536870911}"), profiles=DEV_REL, place="both"),
     "mut": dict(kind="mutate", base=["fields", "getters", "dst", "sized", "efi", "elf", "fb", "rsdp", "str", "walk"],
                 quick=dict(count=1500), thorough=dict(count=60000), profiles=DEV_REL, place="both"),
